@@ -136,32 +136,19 @@ theorem sortDesc_swap (l : List Cell) : sortDesc (l.map Cell.swap) = (sortDesc l
 
 /-! ### the winner loop -/
 
-theorem winners_swap (minimum : Rat) (l : List Cell) (f f' : List Nat) (h : ∀ x, x ∈ f ↔ x ∈ f') :
-    winners minimum (l.map Cell.swap) f' = (winners minimum l f).map Cell.swap := by
-  induction l generalizing f f' with
+theorem winners_swap (minimum : Rat) (l : List Cell) (fa fb : List Nat) :
+    winners minimum (l.map Cell.swap) fb fa = (winners minimum l fa fb).map Cell.swap := by
+  induction l generalizing fa fb with
   | nil => rfl
   | cons c cs ih =>
     simp only [List.map_cons, winners, Cell.swap]
-    have e1 : f'.contains c.a.id = f.contains c.a.id := by rw [Bool.eq_iff_iff]; simp [h]
-    have e2 : f'.contains c.b.id = f.contains c.b.id := by rw [Bool.eq_iff_iff]; simp [h]
-    rw [e1, e2, Bool.or_comm]
+    rw [Bool.or_comm]
     split
     · rfl
     · split
-      · exact ih f f' h
+      · exact ih fa fb
       · simp only [List.map_cons, Cell.swap]
-        rw [ih (c.a.id :: c.b.id :: f) (c.b.id :: c.a.id :: f')]
-        intro x
-        simp only [List.mem_cons, h]
-        constructor
-        · rintro (h1 | h1 | h1)
-          · exact Or.inr (Or.inl h1)
-          · exact Or.inl h1
-          · exact Or.inr (Or.inr h1)
-        · rintro (h1 | h1 | h1)
-          · exact Or.inr (Or.inl h1)
-          · exact Or.inl h1
-          · exact Or.inr (Or.inr h1)
+        rw [ih (c.a.id :: fa) (c.b.id :: fb)]
 
 theorem sumSims_swap (l : List Cell) : sumSims (l.map Cell.swap) = sumSims l := by
   induction l with
@@ -182,9 +169,9 @@ theorem listSimilarity_symm' (xs ys : List Indi) (o : SimOpts)
     have e : ((fun c : Cell => c.sim) ∘ Cell.swap) = (fun c : Cell => c.sim) := by
       funext c; rfl
     rw [e]; exact hn
-  have hw : winners o.minimumSimilarity (sortDesc (matrix ys xs o)) [] =
-      (winners o.minimumSimilarity (sortDesc (matrix xs ys o)) []).map Cell.swap := by
-    rw [hs]; exact winners_swap _ _ [] [] (fun _ => Iff.rfl)
+  have hw : winners o.minimumSimilarity (sortDesc (matrix ys xs o)) [] [] =
+      (winners o.minimumSimilarity (sortDesc (matrix xs ys o)) [] []).map Cell.swap := by
+    rw [hs]; exact winners_swap _ _ [] []
   unfold listSimilarity
   by_cases h1 : xs.length = 0 <;> by_cases h2 : ys.length = 0
   · simp [h1, h2]
